@@ -53,31 +53,24 @@ Lemma w0_read_values :
   pread (pfile w0_read) 0 8 = [1;2;3;4;0;0;0;0]%N.
 Proof. vm_compute. split; reflexivity. Qed.
 
-(* ---- finding 1: Setattr drops the chunks lying wholly inside the new size (no dirty page involved) ---- *)
-Definition w1 : list op := [Write 0 [1;2;3;4]%N; Flush; Write 4 [5;6;7;8]%N; Flush; Trunc 6].
+(* ---- repaired (file.go Setattr now keeps the chunks lying wholly inside the new size): the former
+   witness of the dropped chunks is trigger-free and resolves to the POSIX file ---- *)
+Definition w_kept : list op := [Write 0 [1;2;3;4]%N; Flush; Write 4 [5;6;7;8]%N; Flush; Trunc 6].
 
-Lemma truncate_drops_chunks : exists limit pre, 0 < limit /\ Forall op_ok (pre ++ [Flush]) /\
-  m_trigger limit (pre ++ [Flush]) = Some 1%N /\ t_trigger limit (pre ++ [Flush]) = Some 1%N /\
-  content_of (m_meta (exec mstate (m_step limit) mstate0 (pre ++ [Flush]))) <> pfile (pre ++ [Flush]) /\
-  content_of (t_meta (exec tstate (t_step limit) tstate0 (pre ++ [Flush]))) <> pfile (pre ++ [Flush]).
-Proof.
-  exists 16, w1. split; [lia|]. split; [unfold w1; ops_ok|].
-  split; [vm_compute; reflexivity|]. split; [vm_compute; reflexivity|].
-  split; intro H; vm_compute in H; discriminate.
-Qed.
+Lemma w_kept_values :
+  m_trigger 16 (w_kept ++ [Flush]) = None /\ t_trigger 16 (w_kept ++ [Flush]) = None /\
+  content_of (m_meta (exec mstate (m_step 16) mstate0 (w_kept ++ [Flush]))) = [1;2;3;4;5;6]%N /\
+  content_of (t_meta (exec tstate (t_step 16) tstate0 (w_kept ++ [Flush]))) = [1;2;3;4;5;6]%N /\
+  pfile (w_kept ++ [Flush]) = [1;2;3;4;5;6]%N.
+Proof. vm_compute. repeat split; reflexivity. Qed.
 
-Lemma w1_values :
-  content_of (m_meta (exec mstate (m_step 16) mstate0 (w1 ++ [Flush]))) = [0;0;0;0;5;6]%N /\
-  pfile (w1 ++ [Flush]) = [1;2;3;4;5;6]%N.
-Proof. vm_compute. split; reflexivity. Qed.
-
-(* ---- finding 2: FileHandle.Read keeps serving the visible intervals computed at the first read ---- *)
+(* ---- finding 1: FileHandle.Read keeps serving the visible intervals computed at the first read ---- *)
 Definition w2 : list op := [Write 0 [1;2;3;4]%N; Flush; Read 0 8; Write 0 [5;6;7;8]%N; Flush; Read 0 8].
 
 Definition read_data (o : obs) : list N := match o with ORead _ _ d => d | _ => [] end.
 
 Lemma handle_read_refuted : exists limit ops, 0 < limit /\ Forall op_ok ops /\
-  m_trigger limit ops = Some 2%N /\ t_trigger limit ops = Some 2%N /\
+  m_trigger limit ops = Some 1%N /\ t_trigger limit ops = Some 1%N /\
   read_data (last (m_run limit ops) (OTrunc [] 0)) <> pread (pfile ops) 0 8 /\
   read_data (last (t_run limit ops) (OTrunc [] 0)) <> pread (pfile ops) 0 8.
 Proof.
